@@ -240,7 +240,7 @@ theorem flatMap_split (f : List ℕ → List (List ℕ)) (xs : List (List ℕ)) 
 structure Layered (g : UGraph) (frs : List (List ℕ)) : Prop where
   perm : frs.flatten.Perm (List.range g.n)
   earlier : ∀ k < frs.length, ∀ m ∈ frs.getD k [], ∀ i ∈ g.ins m, i ∈ (frs.take k).flatten
-  arity : ∀ m m', g.key m = g.key m' → (g.ins m).length = (g.ins m').length
+  arity : ∀ m < g.n, ∀ m' < g.n, g.key m = g.key m' → (g.ins m).length = (g.ins m').length
   outs : ∀ o ∈ g.outputs, o < g.n
 
 theorem groups_inv (key : ℕ → ℕ) (frs : List (List ℕ)) :
@@ -250,8 +250,14 @@ theorem groups_inv (key : ℕ → ℕ) (frs : List (List ℕ)) :
   have inv := groupFrontier_inv key fr
   exact ⟨inv.ne grp hgf, inv.hom grp hgf⟩
 
+theorem headD_mem {l : List ℕ} (h : l ≠ []) : l.headD 0 ∈ l := by
+  cases l with
+  | nil => exact absurd rfl h
+  | cons a as => simp
+
 theorem buildFolded_eq (g : UGraph) (frs : List (List ℕ))
-    (harity : ∀ m m', g.key m = g.key m' → (g.ins m).length = (g.ins m').length) :
+    (hlt : ∀ grp ∈ frs.flatMap (groupFrontier g.key), ∀ m ∈ grp, m < g.n)
+    (harity : ∀ m < g.n, ∀ m' < g.n, g.key m = g.key m' → (g.ins m).length = (g.ins m').length) :
     buildFolded g frs =
       { groups := frs.flatMap (groupFrontier g.key)
         inIdx := (frs.flatMap (groupFrontier g.key)).map fun members => members.map fun m =>
@@ -261,11 +267,12 @@ theorem buildFolded_eq (g : UGraph) (frs : List (List ℕ))
   unfold buildFolded
   simp only [FoldCert.mk.injEq, true_and, and_true]
   refine List.map_congr_left (fun members hm => ?_)
-  obtain ⟨_, hhom⟩ := groups_inv g.key frs members hm
+  obtain ⟨hne, hhom⟩ := groups_inv g.key frs members hm
   split
   · rename_i hemp
     refine List.map_congr_left (fun m hmm => ?_)
-    have h1 := harity m (members.headD 0) (hhom m hmm)
+    have h1 := harity m (hlt members hm m hmm) (members.headD 0)
+      (hlt members hm _ (headD_mem hne)) (hhom m hmm)
     have h2 : (g.ins (members.headD 0)).length = 0 := by
       simpa [List.isEmpty_iff] using hemp
     have : g.ins m = [] := List.length_eq_zero_iff.mp (by omega)
@@ -274,10 +281,15 @@ theorem buildFolded_eq (g : UGraph) (frs : List (List ℕ))
 
 theorem buildFolded_valid' (g : UGraph) (frs : List (List ℕ)) (h : Layered g frs) :
     (buildFolded g frs).valid g = true := by
-  rw [buildFolded_eq g frs h.arity]
+  have hperm0 : (frs.flatMap (groupFrontier g.key)).flatten.Perm (List.range g.n) :=
+    (flatMap_groupFrontier_perm g.key frs).trans h.perm
+  have hlt0 : ∀ grp ∈ frs.flatMap (groupFrontier g.key), ∀ m ∈ grp, m < g.n := fun grp hg m hm =>
+    List.mem_range.mp (hperm0.mem_iff.mp (List.mem_flatten.mpr ⟨grp, hg, hm⟩))
+  rw [buildFolded_eq g frs hlt0 h.arity]
   generalize hgr : frs.flatMap (groupFrontier g.key) = groups
   have hperm : groups.flatten.Perm (List.range g.n) := by
-    rw [← hgr]; exact (flatMap_groupFrontier_perm g.key frs).trans h.perm
+    rw [← hgr]; exact hperm0
+  have hlt : ∀ grp ∈ groups, ∀ m ∈ grp, m < g.n := by rw [← hgr]; exact hlt0
   have hinv := groups_inv g.key frs
   rw [hgr] at hinv
   simp only [FoldCert.valid, Bool.and_eq_true, beq_iff_eq, List.all_eq_true, List.mem_range]
@@ -301,7 +313,7 @@ theorem buildFolded_valid' (g : UGraph) (frs : List (List ℕ)) (h : Layered g f
       | nil => exact absurd rfl hne
       | cons a as => rfl
     · have hk : g.key m = g.key (members.headD 0) := hhom m hm
-      exact ⟨hk, h.arity _ _ hk⟩
+      exact ⟨hk, h.arity _ (hlt _ hmem m hm) _ (hlt _ hmem _ (headD_mem hne)) hk⟩
     · have hR : ∀ G : ℕ → List (ℕ × ℕ), (members.map G).getD f [] = G members[f] := by
         intro G
         rw [List.getD_eq_getElem _ _ (by simpa using hf), List.getElem_map]
@@ -344,5 +356,20 @@ theorem buildFolded_valid' (g : UGraph) (frs : List (List ℕ)) (h : Layered g f
     obtain ⟨p, hp⟩ := loc_of_mem hin
     rw [hp]; rfl
 
+
+/-- the executable check `layeredB` (what the driver runs on the real ordering) implies `Layered` -/
+theorem layeredB_sound {g : UGraph} {frs : List (List ℕ)} (h : layeredB g frs = true) :
+    Layered g frs := by
+  simp only [layeredB, Bool.and_eq_true, List.all_eq_true, List.mem_range, Bool.or_eq_true,
+    bne_iff_ne, beq_iff_eq, decide_eq_true_eq, List.contains_iff_mem] at h
+  obtain ⟨⟨⟨hp, he⟩, ha⟩, ho⟩ := h
+  refine ⟨perm_of_partitions hp, fun k hk m hm i hi => he k hk m hm i hi, fun m hm m' hm' hkey => ?_, ho⟩
+  rcases ha m hm m' hm' with hne | heq
+  · exact absurd hkey hne
+  · exact heq
+
+theorem buildFolded_valid_of_layeredB (g : UGraph) (frs : List (List ℕ))
+    (h : layeredB g frs = true) : (buildFolded g frs).valid g = true :=
+  buildFolded_valid' g frs (layeredB_sound h)
 
 end Cirkit
